@@ -301,8 +301,25 @@ impl Fabric {
         f.note(now, 6, addr, addr, 0, || format!("BIND {addr}"));
         Ok(Arc::new(SimSocket {
             addr,
+            reported: addr,
             fabric: self.clone(),
         }))
+    }
+
+    /// A dual-stack socket: bound on an IPv6 wildcard-style address (what `local_addr` reports),
+    /// reachable from IPv4 peers at the host's IPv4 address `addr` (its identity on the fabric),
+    /// sending to IPv4 peers through IPv4-mapped destinations and reporting IPv4 senders as
+    /// IPv4-mapped addresses - the way a `[::]:port` socket behaves on a dual-stack host.
+    pub fn bind_dual_stack(&self, addr: SocketAddr) -> io::Result<Arc<SimSocket>> {
+        let s = self.bind(addr)?;
+        // (the plain socket must not run its Drop: the address stays bound)
+        std::mem::forget(s);
+        let last = match addr.ip() {
+            std::net::IpAddr::V4(v4) => v4.octets()[3],
+            _ => 0,
+        };
+        let reported = SocketAddr::new(std::net::IpAddr::V6(std::net::Ipv6Addr::new(0xfd77, 0, 0, 0, 0, 0, 0, last as u16)), addr.port());
+        Ok(Arc::new(SimSocket { addr, reported, fabric: self.clone() }))
     }
 
     pub fn spawn_pump(&self) -> tokio::task::JoinHandle<()> {
@@ -561,8 +578,22 @@ fn addr_code(a: SocketAddr) -> u64 {
 // ---------------------------------------------------------------------------------------------
 
 pub struct SimSocket {
+    /// identity on the fabric (the address peers send to)
     addr: SocketAddr,
+    /// what `local_addr` reports (differs from `addr` for a dual-stack socket)
+    reported: SocketAddr,
     fabric: Fabric,
+}
+
+/// IPv4-mapped IPv6 destinations (what a dual-stack socket is given for IPv4 peers) are IPv4 peers.
+fn canonical(a: SocketAddr) -> SocketAddr {
+    match a {
+        SocketAddr::V6(v6) => match v6.ip().to_ipv4_mapped() {
+            Some(v4) => SocketAddr::new(std::net::IpAddr::V4(v4), v6.port()),
+            None => a,
+        },
+        _ => a,
+    }
 }
 
 impl std::fmt::Debug for SimSocket {
@@ -642,6 +673,7 @@ impl AsyncUdpSocket for SimSocket {
     }
 
     fn try_send(&self, t: &Transmit) -> io::Result<()> {
+        let destination = canonical(t.destination);
         {
             let now = self.fabric.now_ns();
             let mut f = self.fabric.lock();
@@ -654,7 +686,7 @@ impl AsyncUdpSocket for SimSocket {
             // advances even if an endpoint tries to send in a tight loop (with a paused clock a
             // loop that never awaits a timer would otherwise freeze time forever).
             let ms = now / 1_000_000;
-            let e = f.nic.entry((self.addr, t.destination)).or_insert((ms, 0, 0));
+            let e = f.nic.entry((self.addr, destination)).or_insert((ms, 0, 0));
             if e.0 != ms {
                 // a socket that keeps its queue full is drained more and more slowly (any rate is
                 // a legal network); one quiet millisecond resets it
@@ -678,7 +710,7 @@ impl AsyncUdpSocket for SimSocket {
         }
         let seg = t.segment_size.unwrap_or(t.contents.len().max(1));
         for chunk in t.contents.chunks(seg) {
-            self.fabric.send(self.addr, t.destination, chunk);
+            self.fabric.send(self.addr, destination, chunk);
         }
         Ok(())
     }
@@ -699,6 +731,11 @@ impl AsyncUdpSocket for SimSocket {
         if let Some((from, data)) = q.pop_front() {
             let n = data.len().min(bufs[0].len());
             bufs[0][..n].copy_from_slice(&data[..n]);
+            // (a dual-stack socket reports IPv4 senders as IPv4-mapped addresses)
+            let from = match (self.reported, from) {
+                (SocketAddr::V6(_), SocketAddr::V4(v4)) => SocketAddr::new(std::net::IpAddr::V6(v4.ip().to_ipv6_mapped()), v4.port()),
+                _ => from,
+            };
             meta[0] = RecvMeta {
                 addr: from,
                 len: n,
@@ -714,7 +751,7 @@ impl AsyncUdpSocket for SimSocket {
     }
 
     fn local_addr(&self) -> io::Result<SocketAddr> {
-        Ok(self.addr)
+        Ok(self.reported)
     }
 
     fn may_fragment(&self) -> bool {
